@@ -1,0 +1,38 @@
+//! Entry points for the external verification harness (compiled only with
+//! `--cfg gothenburgbitfactory_taskchampion_verif`).
+#![allow(missing_docs)]
+
+#[cfg(feature = "cloud")]
+pub use super::cloud::verif::{
+    cloud_server, draw_pending, init_store, set_next_draw, Fault, Gate, MemObject, MemService,
+    MemStore, SharedStore,
+};
+
+#[cfg(feature = "encryption")]
+mod seal {
+    use crate::errors::Result;
+    use crate::server::encryption::{Cryptor, Sealed, Unsealed};
+    use crate::server::VersionId;
+
+    /// Seal `payload` for `version_id` with the key derived from `secret` and `salt`.
+    pub fn seal(secret: &[u8], salt: &[u8], version_id: VersionId, payload: Vec<u8>) -> Result<Vec<u8>> {
+        let c = Cryptor::new(salt, &secret.to_vec().into())?;
+        Ok(c.seal(Unsealed {
+            version_id,
+            payload,
+        })?
+        .into())
+    }
+
+    /// Open a sealed value that is claimed to belong to `version_id`.
+    pub fn unseal(secret: &[u8], salt: &[u8], version_id: VersionId, sealed: Vec<u8>) -> Result<Vec<u8>> {
+        let c = Cryptor::new(salt, &secret.to_vec().into())?;
+        Ok(c.unseal(Sealed {
+            version_id,
+            payload: sealed,
+        })?
+        .into())
+    }
+}
+#[cfg(feature = "encryption")]
+pub use seal::{seal, unseal};
